@@ -1,12 +1,121 @@
-(* C03 - provisional: replaced when the per-node proof files are complete. *)
-From Coq Require Import List ZArith.
+(* C03 - backpressure: emit waits, in-flight data bounded, no lost wake-up.
+   Statements restated from the proof files by harness/mkprops.py; every theorem quantifies over ALL action
+   lists (schedules of emits, consumer completions, task completions, time advances). *)
+From Coq Require Import List ZArith Bool Arith Permutation Sorted.
 From SZ Require Import Base.Values.
 From SZ Require Import Sync.Nodes.
 From SZ Require Import Async.Core.
-From SZ Require Import Async.Plain.
+From SZ Require Async.BufferProofs.
+From SZ Require Async.MapAsyncProofs.
+From SZ Require Async.ZipBPProofs.
+From SZ Require Async.TimedWindowProofs.
+From SZ Require Async.DelayProofs.
+From SZ Require Async.LatestProofs.
+From SZ Require Async.RateLimitProofs.
+From SZ Require Async.Plain.
 Import ListNotations.
 
-Theorem C03_callback_only_at_zero : forall s m r,
-  In r (rfired (rc_release s m 1)) -> In r (rfired s) \/ (rcnt s r - mocc m r <= 0)%Z /\ (1 <= mocc m r)%Z.
-Proof. exact rfired_release_new. Qed.
-Print Assumptions C03_callback_only_at_zero.
+(* from Async.BufferProofs *)
+Section S_buffer_bound_BufferProofs.
+Import SZ.Async.BufferProofs.
+Theorem C03_buffer_bound : forall (n : nat) (sync : bool) (acts : list act) (s : nm_state Buffer.buffer_model) (outs : list (list (Z * val * list mdi) * list nat)), run_steps Buffer.buffer_model (Buffer.b_init n sync) acts = (s, outs) -> length (Buffer.b_q s) <= n /\ (Buffer.b_putters s <> [] -> length (Buffer.b_q s) = n /\ Buffer.b_busy s <> None).
+Proof. exact (@buffer_bound). Qed.
+End S_buffer_bound_BufferProofs.
+Print Assumptions C03_buffer_bound.
+
+(* from Async.BufferProofs *)
+Section S_buffer_no_lost_wakeup_BufferProofs.
+Import SZ.Async.BufferProofs.
+Theorem C03_buffer_no_lost_wakeup : forall (n : nat) (sync : bool) (acts : list act) (s : nm_state Buffer.buffer_model) (outs : list (list (Z * val * list mdi) * list nat)), run_steps Buffer.buffer_model (Buffer.b_init n sync) acts = (s, outs) -> Buffer.b_busy s = None -> Buffer.b_q s = [] /\ Buffer.b_putters s = [].
+Proof. exact (@buffer_no_lost_wakeup). Qed.
+End S_buffer_no_lost_wakeup_BufferProofs.
+Print Assumptions C03_buffer_no_lost_wakeup.
+
+(* from Async.BufferProofs *)
+Section S_buffer_done_BufferProofs.
+Import SZ.Async.BufferProofs.
+Theorem C03_buffer_done : forall (n : nat) (sync : bool) (acts : list act) (s : nm_state Buffer.buffer_model) (outs : list (list (Z * val * list mdi) * list nat)), run_steps Buffer.buffer_model (Buffer.b_init n sync) acts = (s, outs) -> Permutation (all_done outs ++ map snd (Buffer.b_putters s)) (seq 0 (n_emits acts)).
+Proof. exact (@buffer_done). Qed.
+End S_buffer_done_BufferProofs.
+Print Assumptions C03_buffer_done.
+
+(* from Async.MapAsyncProofs *)
+Section S_map_async_bound_p1_MapAsyncProofs.
+Import SZ.Async.MapAsyncProofs.
+Theorem C03_map_async_bound_p1 : forall (p : nat) (sync : bool) (acts : list act) (s : nm_state MapAsync.map_async_model) (outs : list (list (Z * val * list mdi) * list nat)), run_steps MapAsync.map_async_model (MapAsync.m_init p sync) acts = (s, outs) -> length (MapAsync.m_running s) <= S p.
+Proof. exact (@map_async_bound_p1). Qed.
+End S_map_async_bound_p1_MapAsyncProofs.
+Print Assumptions C03_map_async_bound_p1.
+
+(* from Async.MapAsyncProofs *)
+Section S_map_async_bound_refuted_MapAsyncProofs.
+Import SZ.Async.MapAsyncProofs.
+Theorem C03_map_async_bound_refuted : exists (acts : list act) (s : nm_state MapAsync.map_async_model) (outs : list (list (Z * val * list mdi) * list nat)), run_steps MapAsync.map_async_model (MapAsync.m_init 2 false) acts = (s, outs) /\ length (MapAsync.m_running s) = 3.
+Proof. exact (@map_async_bound_refuted). Qed.
+End S_map_async_bound_refuted_MapAsyncProofs.
+Print Assumptions C03_map_async_bound_refuted.
+
+(* from Async.MapAsyncProofs *)
+Section S_map_async_queue_bound_MapAsyncProofs.
+Import SZ.Async.MapAsyncProofs.
+Theorem C03_map_async_queue_bound : forall (p : nat) (sync : bool) (acts : list act) (s : nm_state MapAsync.map_async_model) (outs : list (list (Z * val * list mdi) * list nat)), run_steps MapAsync.map_async_model (MapAsync.m_init p sync) acts = (s, outs) -> length (MapAsync.m_queue s) <= p.
+Proof. exact (@map_async_queue_bound). Qed.
+End S_map_async_queue_bound_MapAsyncProofs.
+Print Assumptions C03_map_async_queue_bound.
+
+(* from Async.ZipBPProofs *)
+Section S_zip_waiters_released_ZipBPProofs.
+Import SZ.Async.ZipBPProofs.
+Theorem C03_zip_waiters_released : forall (mx : nat) (sync : bool) (acts : list act) (a : act) (s : nm_state ZipBP.zip_model) (outs : list (list (Z * val * list mdi) * list nat)) (o : list (Z * val * list mdi) * list nat), run_steps ZipBP.zip_model (ZipBP.z_init mx sync) (acts ++ [a]) = (s, outs ++ [o]) -> fst o <> [] -> ZipBP.z_waiters s = [].
+Proof. exact (@zip_waiters_released). Qed.
+End S_zip_waiters_released_ZipBPProofs.
+Print Assumptions C03_zip_waiters_released.
+
+(* from Async.TimedWindowProofs *)
+Section S_tw_waiting_TimedWindowProofs.
+Import SZ.Async.TimedWindowProofs.
+Theorem C03_tw_waiting : forall (i : Z) (sync : bool) (uniq : option ((val -> val) * bool)) (acts : list act) (s : TimedWindow.wst) (outs : list (list (Z * val * list mdi) * list nat)), (0 < i)%Z -> run_steps TimedWindow.timed_window_model (fst (TimedWindow.w_init i sync uniq)) acts = (s, outs) -> forall u : Z, TimedWindow.w_mode s = TimedWindow.WSleep u -> TimedWindow.w_waiting s = [].
+Proof. exact (@tw_waiting). Qed.
+End S_tw_waiting_TimedWindowProofs.
+Print Assumptions C03_tw_waiting.
+
+(* from Async.TimedWindowProofs *)
+Section S_tw_done_TimedWindowProofs.
+Import SZ.Async.TimedWindowProofs.
+Theorem C03_tw_done : forall (i : Z) (sync : bool) (uniq : option ((val -> val) * bool)) (acts : list act) (s : TimedWindow.wst) (outs : list (list (Z * val * list mdi) * list nat)), (0 < i)%Z -> run_steps TimedWindow.timed_window_model (fst (TimedWindow.w_init i sync uniq)) acts = (s, outs) -> all_done (snd (TimedWindow.w_init i sync uniq) :: outs) ++ TimedWindow.w_waiting s = seq 0 (n_emits acts).
+Proof. exact (@tw_done). Qed.
+End S_tw_done_TimedWindowProofs.
+Print Assumptions C03_tw_done.
+
+(* from Async.DelayProofs *)
+Section S_delay_done_DelayProofs.
+Import SZ.Async.DelayProofs.
+Theorem C03_delay_done : forall (interval : Z) (sync : bool) (acts : list act) (s : nm_state Delay.delay_model) (outs : list (list (Z * val * list mdi) * list nat)), run_steps Delay.delay_model (Delay.d_init interval sync) acts = (s, outs) -> all_done outs = seq 0 (n_emits acts).
+Proof. exact (@delay_done). Qed.
+End S_delay_done_DelayProofs.
+Print Assumptions C03_delay_done.
+
+(* from Async.LatestProofs *)
+Section S_latest_done_LatestProofs.
+Import SZ.Async.LatestProofs.
+Theorem C03_latest_done : forall (sync : bool) (acts : list act) (s : nm_state Latest.latest_model) (outs : list (list (Z * val * list mdi) * list nat)), run_steps Latest.latest_model (Latest.l_init sync) acts = (s, outs) -> all_done outs = seq 0 (n_emits acts).
+Proof. exact (@latest_done). Qed.
+End S_latest_done_LatestProofs.
+Print Assumptions C03_latest_done.
+
+(* from Async.RateLimitProofs *)
+Section S_rl_done_RateLimitProofs.
+Import SZ.Async.RateLimitProofs.
+Theorem C03_rl_done : forall (i : Z) (sync : bool) (acts : list act) (s : RateLimit.rst) (outs : list (list (Z * val * list mdi) * list nat)), (0 < i)%Z -> run_steps RateLimit.rate_limit_model (RateLimit.r_init i sync) acts = (s, outs) -> all_done outs ++ map snd (RateLimit.r_flight s) = seq 0 (length (all_deliv outs)).
+Proof. exact (@rl_done). Qed.
+End S_rl_done_RateLimitProofs.
+Print Assumptions C03_rl_done.
+
+(* from Async.Plain *)
+Section S_plain_emit_waits_Plain.
+Import SZ.Async.Plain.
+Theorem C03_plain_emit_waits : forall (s : plst) (src : nat) (x : val) (m : list mdi), pl_sync s = false -> snd (snd (pl_step s (AEmit src x m))) = [] /\ In (pl_next s) (pl_flight (fst (pl_step s (AEmit src x m)))).
+Proof. exact (@plain_emit_waits). Qed.
+End S_plain_emit_waits_Plain.
+Print Assumptions C03_plain_emit_waits.
+
